@@ -153,7 +153,7 @@ func (e *evaluator) eval1(x ast.Expr) *Term {
 		xt, it := e.eval(x.X), e.eval(x.Index)
 		if (it.Op == "key" && len(it.A) == 1 && it.A[0].Eq(xt)) || (it.Op == "keyfrom" && len(it.A) == 2 && it.A[1].Eq(xt)) {
 			// x[i] with i ranging over x: the element under iteration (in range by construction)
-			return mk("elem", xt).withType(e.typeOf(x))
+			return simplify(mk("elem", xt).withType(e.typeOf(x)))
 		}
 		t := mk("idx", xt, it)
 		if st := simplify(t); st.Op == "slice" {
@@ -665,6 +665,32 @@ func (e *evaluator) evalCall(call *ast.CallExpr) *Term {
 	case *types.Builtin:
 		ci.name = c.Name()
 		result = &Term{Op: c.Name(), A: ci.args}
+		if c.Name() == "append" {
+			result = simplify(result.withType(e.typeOf(call)))
+		}
+		if c.Name() == "copy" && len(call.Args) == 2 && len(ci.args) == 2 && e.st != nil && !e.quiet {
+			// copy(dst, src) into a local buffer freshly made with exactly the length of src: dst now holds a copy of src
+			if id, ok := ast.Unparen(call.Args[0]).(*ast.Ident); ok {
+				if v, _ := e.info().Uses[id].(*types.Var); v != nil {
+					if cur, known := e.st.vars[v]; known && cur != nil {
+						mkT, src := stripConv(cur), stripConv(ci.args[1])
+						if mkT.Op == "make" && len(mkT.A) >= 2 {
+							n := stripConv(mkT.A[1])
+							same := n.Eq(mk("len", src))
+							if !same && src.Op == "slice" && len(src.A) == 3 && src.A[2].IsAt("_") {
+								// make(T, len(k)-c) and src = k[c:]
+								same = n.Eq(mk("-", mk("len", src.A[0]), src.A[1]))
+							}
+							if same {
+								nt := *ci.args[1]
+								nt.Typ = v.Type()
+								e.st.vars[v] = &nt
+							}
+						}
+					}
+				}
+			}
+		}
 	case *types.Func:
 		ci.name = qname(c)
 		ci.fn = e.p.FuncByObj[c]
